@@ -22,6 +22,13 @@ SITES = {
     'i18n_name': ('<p i18n:translate="">a <b i18n:name="n" tal:content="v">x</b> c</p>', None, True),
     'translated_msg': ('<p tal:content="m">x</p>', None, True),
     'translated_msg_interp': ('<p>${m}</p>', None, True),
+    # dynamic content offered for translation: what the translation function returns for the (harmless) message
+    # id is the hostile text
+    'content_translated': ('<p tal:content="key" i18n:translate="">x</p>', None, True),
+    'replace_translated': ('<i>l</i><p tal:replace="key" i18n:translate="">x</p><i>r</i>', None, True),
+    # a string: expression inside an interpolation
+    'string_in_interp_text': ('<p>${string:a${v}b}</p>', None, True),
+    'string_in_interp_attr': ('<p t="${string:a${v}b}">x</p>', '"', True),
     # opt-outs: value must pass through unchanged
     'structure_kw': ('<p tal:content="structure v">x</p>', None, False),
     'structure_expr': ('<p>${structure: v}</p>', None, False),
@@ -63,6 +70,22 @@ class Html:
 
     def __html__(self):
         return self.s
+
+
+class IntLabel(int):
+    """number subclass with its own string form (e.g. an IntEnum member with a label)"""
+
+    def __str__(self):
+        return self.label
+
+    __repr__ = __str__
+
+
+class FloatLabel(float):
+    def __str__(self):
+        return self.label
+
+    __repr__ = __str__
 
 
 class Msg:
@@ -126,6 +149,8 @@ def prepare(cfg):
 def _translate(msgid, domain=None, mapping=None, context=None, target_language=None, default=None):
     if isinstance(msgid, Msg):
         return msgid.s
+    if isinstance(msgid, str) and msgid == 'MSGKEY':
+        return STATE.get('cur', 'MSGKEY')
     if default is None:
         default = msgid
     if mapping and isinstance(default, str):
@@ -148,11 +173,18 @@ def render(v):
         kw['__decode'] = lambda b: v        # whatever the bytes decode to (codecs are a C boundary)
     elif kind == 'int':
         val = v                              # v is an int here (marker: 987654321)
+    elif kind == 'intsub':
+        val = IntLabel(7)
+        val.label = v
+    elif kind == 'floatsub':
+        val = FloatLabel(1.5)
+        val.label = v
     else:
         raise KeyError(kind)
+    STATE['cur'] = v
     if kind == 'int':
         return STATE['tpl'].render(v=val, d={'k': val}, h=val, m=val)
-    return STATE['tpl'].render(v=val, d={'k': val}, h=Html(v), m=Msg(v), **kw)
+    return STATE['tpl'].render(v=val, d={'k': val}, h=Html(v), m=Msg(v), key='MSGKEY', **kw)
 
 
 ENTITIES = (('&amp;', '&'), ('&lt;', '<'), ('&gt;', '>'), ('&quot;', '"'), ('&#34;', '"'), ('&#39;', "'"),
